@@ -219,6 +219,9 @@ class ndarray:
         dt = dt if isinstance(dt, SDtype) else SDtype(dt.__name__)
         return ndarray('lib', self.column, self.a, self.b, dt, self.width, False, self.rows_from, self.extra_dims)
 
+    def copy(self):
+        return ndarray('lib', self.column, self.a, self.b, self.dtype, self.width, False, self.rows_from, self.extra_dims)
+
 
 class Field:
     """One field of a structured array in memory: where its rows come from."""
@@ -299,6 +302,10 @@ class structarr(ndarray):
     def __iter__(self):
         for i in range(self.n):
             yield Row(self, i)
+
+    def copy(self):
+        nf = {nm: Field('lib', f.column, f.a, f.dt, f.width, f.bcast, f.src_dt, f.zero) for nm, f in self.fields.items()}
+        return structarr('lib', self.n, self.dtype, nf, False, self.a0)
 
 
 def zeros(n, dtype=None):
